@@ -254,10 +254,10 @@ def exhaustive_aggregators(ctx, pending):
     """every aggregator x every list of up to 3 values over a small domain (validation of the model, and a
     failing-input search; the theorems are what covers all lists)"""
     rep = ctx.report
-    dom = {'x': [None, 1, 2, -1], 's': [None, 'p', 'q']}
+    dom = {'x': [None, 0, 1, 2, -1], 's': [None, 'p', 'q']}
     for agg in NUM_AGGS + ANY_AGGS + ['counters']:
         src = 's' if agg == 'counters' else 'x'
-        for n in range(0, 4 if not ctx.quick else 3):
+        for n in range(0, 4 if (not ctx.quick or agg in ('max', 'min', 'sum', 'first', 'last')) else 3):
             for vals in itertools.product(dom[src], repeat=n):
                 source = [{'k': 1, 'g': 'a', 'x': None, 's': None, src: v} for v in vals] or [{'k': 2, 'g': 'a', 'x': 1, 's': 'p'}]
                 target = [{'k': 1, 'g': 'a', 'x': 0, 's': 'z'}]
